@@ -347,6 +347,9 @@ func (x *fnExec) external(fr *frame, st *State, ci ssa.CallInstruction, res ssa.
 	case "math.Abs":
 		set(scalar(mk("fp.abs", SFP64, args[0].T), resT))
 		return
+	case "math.Inf":
+		set(scalar(Ite(BVCmp("bvsge", args[0].T, BVU(0, 64)), mkN("fpnan", "(_ +oo 11 53)", SFP64), mkN("fpnan", "(_ -oo 11 53)", SFP64)), resT))
+		return
 	case "math.Ceil":
 		set(scalar(mkN("fp.rti", "fp.roundToIntegral RTP", SFP64, args[0].T), resT))
 		return
